@@ -76,6 +76,8 @@ type FnCtx struct {
 	mapAx    map[string]bool
 	factSeen map[string]bool
 	ghosts   map[string]Val // ghost parameters of the function under verification
+	closureAx  map[string]bool
+	noNaming   int // >0: do not introduce named constants for intermediate terms (bodies run on bound variables)
 }
 
 func (c *FnCtx) fresh(prefix, sort string) *Term {
@@ -194,7 +196,7 @@ func (c *FnCtx) get(st *State, fam, sort string) *Term {
 func (c *FnCtx) set(st *State, fam string, t *Term) {
 	c.famSort[fam] = t.S
 	// name the new version to keep terms small
-	if len(t.Args) > 0 {
+	if len(t.Args) > 0 && c.noNaming == 0 {
 		v := c.fresh(fam, t.S)
 		c.addFact(Eq(v, t))
 		t = v
@@ -252,12 +254,9 @@ func (c *FnCtx) loadPtr(st *State, p Val, t types.Type) Val {
 	if pt, ok := t.Underlying().(*types.Pointer); ok {
 		out.Root = pt.Elem()
 	}
-	// references stored in the heap denote allocated objects
-	for i, l := range ls {
-		if l.Role == "obj" || l.Role == "map" {
-			c.assume(st.reach, Lt(out.L[i], c.get(st, "$alloc", SInt)))
-			c.assume(st.reach, Ge(out.L[i], IntT(0)))
-		}
+	// values stored in the heap are well-formed (references denote allocated objects, slice headers are sane)
+	if c.inUnfold == 0 || len(c.bound) == 0 {
+		c.wellFormed(st.reach, out, st)
 	}
 	return out
 }
@@ -421,9 +420,13 @@ func (c *FnCtx) mergeStates(edges []edge) *State {
 		}
 	}
 	out := &State{m: map[string]*Term{}}
-	r := c.fresh("reach", SBool)
-	c.addFact(Eq(r, Or(conds...)))
-	out.reach = r
+	if c.noNaming > 0 {
+		out.reach = Or(conds...)
+	} else {
+		r := c.fresh("reach", SBool)
+		c.addFact(Eq(r, Or(conds...)))
+		out.reach = r
+	}
 	ks := make([]string, 0, len(keys))
 	for k := range keys {
 		ks = append(ks, k)
@@ -449,6 +452,10 @@ func (c *FnCtx) mergeStates(edges []edge) *State {
 		t := vals[len(vals)-1]
 		for i := len(vals) - 2; i >= 0; i-- {
 			t = Ite(edges[i].cond, vals[i], t)
+		}
+		if c.noNaming > 0 {
+			out.m[k] = t
+			continue
 		}
 		v := c.fresh(k, srt)
 		c.addFact(Eq(v, t))
